@@ -269,7 +269,7 @@ func readDpkgSigData(info *nfpm.Info, debianBinary, controlTarGz, dataTarball []
 		Files: []dpkgSigFileLine{
 			newDpkgSigFileLine("debian-binary", debianBinary),
 			newDpkgSigFileLine("control.tar.gz", controlTarGz),
-			newDpkgSigFileLine("data.tar.gz", dataTarball),
+			newDpkgSigFileLine(dataTarballName(info.Deb.Compression), dataTarball),
 		},
 	}
 	temp, _ := template.New("dpkg-sig").Funcs(template.FuncMap{
@@ -281,6 +281,22 @@ func readDpkgSigData(info *nfpm.Info, debianBinary, controlTarGz, dataTarball []
 		return nil, fmt.Errorf("dpkg-sig template error: %w", err)
 	}
 	return buf, nil
+}
+
+// dataTarballName is the name of the data member for the given compression,
+// as createDataTarball stores it: the dpkg-sig manifest has to list the
+// members under the names they have in the package.
+func dataTarballName(compression string) string {
+	switch compression {
+	case "xz":
+		return "data.tar.xz"
+	case "zstd":
+		return "data.tar.zst"
+	case "none":
+		return "data.tar"
+	default:
+		return "data.tar.gz"
+	}
 }
 
 func (*Deb) SetPackagerDefaults(info *nfpm.Info) {
